@@ -76,6 +76,11 @@ from .ast import (
     PotentiometerDecl,
 )
 
+_PYTHON_ARITHMETIC = {
+    ast.FloorDiv: "__redu_floordiv",
+    ast.Mod: "__redu_mod",
+    ast.Pow: "__redu_pow",
+}
 _BIN = {
     ast.Add: "+", ast.Sub: "-", ast.Mult: "*", ast.Div: "/", ast.FloorDiv: "/",
     ast.Mod: "%", ast.Pow: "**", ast.BitAnd: "&", ast.BitOr: "|", ast.BitXor: "^",
@@ -586,6 +591,13 @@ def _to_c_expr(
             ):
                 # Two C string literals cannot be added; make the left one a String.
                 return f"(String({emit(n.left)}) + {emit(n.right)})"
+            if isinstance(n.op, (ast.FloorDiv, ast.Mod, ast.Pow)):
+                # C's ``/`` and ``%`` round towards zero (Python's towards minus
+                # infinity) and C has no power operator.
+                if "String" in (_infer_arg_type(n.left), _infer_arg_type(n.right)):
+                    raise ValueError("unsupported operand type: str")
+                _mark_helper("math")
+                return f"{_PYTHON_ARITHMETIC[type(n.op)]}({emit(n.left)}, {emit(n.right)})"
             return f"({emit(n.left)} {_BIN[type(n.op)]} {emit(n.right)})"
 
         if isinstance(n, ast.UnaryOp) and type(n.op) in _UN:
@@ -2240,6 +2252,15 @@ def _handle_assignment_ast(
         if isinstance(stmt.op, ast.Div):
             nodes.append(
                 VarAssign(name=target.id, expr=f"(static_cast<float>({target.id}) / {rhs_c})")
+            )
+            return nodes
+        if type(stmt.op) in _PYTHON_ARITHMETIC:
+            helpers.add("math")
+            nodes.append(
+                VarAssign(
+                    name=target.id,
+                    expr=f"{_PYTHON_ARITHMETIC[type(stmt.op)]}({target.id}, {rhs_c})",
+                )
             )
             return nodes
         nodes.append(VarAssign(name=target.id, expr=f"({target.id} {op_symbol} {rhs_c})"))
